@@ -997,6 +997,249 @@ def stage_documented_forms(ctx):
                 ctx.violation(f"{name}:value", f"{name}: got {v}, dense value {wnt}", replay)
 
 
+def record_consistent(q, info):
+    """is info['cur_orthog'] TRUE of the MPS q?  (every site left of the recorded range is a left isometry,
+    every site right of it a right isometry).  Returns (ok, detail); records 'calc' / absent are vacuous."""
+    co = info.get("cur_orthog", None) if isinstance(info, dict) else None
+    if co is None or isinstance(co, str):
+        return True, "no record"
+    lo, hi = (co, co) if isinstance(co, (int, np.integer)) else (min(co), max(co))
+    L = q.L
+    for i in range(L):
+        if lo <= i <= hi:
+            continue
+        t = q[i]
+        bond = q.bond(i, i + 1) if i < lo else q.bond(i - 1, i)
+        rest = [ix for ix in t.inds if ix != bond]
+        M = np.asarray(t.to_dense(rest, [bond]))
+        if not np.allclose(M.conj().T @ M, np.eye(M.shape[1]), atol=1e-8):
+            return False, f"site {i} is not a {'left' if i < lo else 'right'} isometry although cur_orthog={co}"
+    return True, "ok"
+
+
+def stage_repeated_queries(ctx):
+    """routes that accept a reusable state argument (info, gauges, plaquette_envs / envs, a reusable optimizer) are
+    called two or three times on the same state with the same object (same and different operators / sites,
+    normalised and not): EVERY call must equal the dense answer, and after every call the caller's state object and
+    its info['cur_orthog'] record must be mutually consistent (the record true of the caller's MPS, the MPS still
+    the same vector) and caller-owned dicts that are documented as not modified must be unchanged."""
+    rng = ctx.rng
+
+    def cmp_terms(ctx, key, name, res, terms, ref, normalized, replay, call_no):
+        bad = False
+        for w, G in terms.items():
+            wt = (w,) if not isinstance(w, tuple) or (isinstance(w[0], int) and len(ref.sites) and isinstance(ref.sites[0], tuple)) else w
+            want = ref.expec(G, wt) / (ref.n2 if normalized else 1.0)
+            try:
+                v = res[w]
+                if isinstance(v, tuple):  # 2D return_all: (numerator, local norm)
+                    v = v[0] / v[1] if v[1] is not None else v[0]
+                v = complex(np.asarray(v).reshape(-1)[0])
+            except Exception as e:
+                ctx.violation(f"{key}:repeated:malformed", f"{name} call #{call_no}: malformed result {type(e).__name__}: {e}", replay)
+                return True
+            if not close(v, want, abs(want)):
+                ctx.violation(f"{key}:repeated:value",
+                              f"{name}: call #{call_no} with the same reusable argument returned {v} for where={w}, dense value {want} "
+                              f"(earlier calls were {'right' if call_no > 1 else 'n/a'})",
+                              {**replay, "call": call_no, "where": str(w), "got": [v.real, v.imag], "want": [want.real, want.imag]})
+                bad = True
+        return bad
+
+    # ---- 1D: info dict (canonical centre record) ---------------------------------------------------------------
+    for n in range(ctx.n(4, 16)):
+        L = rng.randint(4, 6)
+        p = gen_mps(rng, L=L, phys=2)
+        ref = Ref(p)
+        if abs(ref.n2) < 0.5:
+            continue
+        sdesc = state_desc("mps", ref, {"id": f"repeat_mps_{n}"})
+        psi0 = ref.psi.reshape(-1)
+
+        def mk_terms(k):
+            T = {}
+            for _ in range(k):
+                w = rand_where(rng, ref.sites, k=rng.choice([1, 2, 2]), maxD=4, dims=ref.dims)
+                T[w] = rand_op(rng, ref, w)[0]
+            return T
+
+        t1, t2 = mk_terms(2), mk_terms(3)
+        seq = [(t1, True), (t2, False), (t1, True)] if n % 2 == 0 else [(t1, False), (t1, True), (t2, True)]
+        variants = [
+            ("tn1d.compute_local_expectation[canonical]", "info={}, inplace=False", lambda q, T, nz, info: q.compute_local_expectation(
+                T, method="canonical", normalized=nz, return_all=True, info=info), {}, False),
+            ("tn1d.compute_local_expectation[canonical]", "info={'cur_orthog':'calc'}, inplace=False", lambda q, T, nz, info: q.compute_local_expectation(
+                T, method="canonical", normalized=nz, return_all=True, info=info), {"cur_orthog": "calc"}, False),
+            ("tn1d.compute_local_expectation_canonical", "info={}, inplace=True", lambda q, T, nz, info: q.compute_local_expectation_canonical(
+                T, normalized=nz, return_all=True, info=info, inplace=True), {}, True),
+            ("tn1d.local_expectation_canonical", "info={}", lambda q, T, nz, info: {w: q.local_expectation_canonical(G, w, normalized=nz, info=info) for w, G in T.items()}, {}, True),
+            ("tn1d.partial_trace_to_dense_canonical", "info={}", lambda q, T, nz, info: {w: np.trace(G @ np.asarray(q.partial_trace_to_dense_canonical(w, normalized=nz, info=info)))
+                                                                                     for w, G in T.items()}, {}, True),
+        ]
+        for key, label, fn, info0, inplace in variants:
+            q = p.copy()
+            info = dict(info0)
+            replay = {"state": sdesc, "route": key, "variant": label, "sequence": [[[str(w) for w in T], nz] for T, nz in seq],
+                      "ops": [[str(w), jsonable(G)] for T, _ in seq for w, G in T.items()]}
+            for call_no, (T, nz) in enumerate(seq, 1):
+                ctx.count((sdesc["id"], key, label, call_no), True)
+                ctx.bump("route:repeated_queries")
+                try:
+                    res = fn(q, T, nz, info)
+                except Exception as e:
+                    ctx.violation(f"{key}:repeated:raised:{type(e).__name__}", f"{key} ({label}) call #{call_no} raised {type(e).__name__}: {str(e)[:160]}", replay)
+                    break
+                cmp_terms(ctx, key, f"{key} ({label})", res, T, ref, nz, replay, call_no)
+                # the record must be true of the CALLER's state, and the caller's state must still be the same vector
+                ok, why = record_consistent(q, info)
+                if not ok:
+                    ctx.violation(f"{key}:repeated:stale_cur_orthog",
+                                  f"{key} ({label}): after call #{call_no} the caller's info records cur_orthog={info.get('cur_orthog')} "
+                                  f"but that is not true of the caller's MPS ({why})", {**replay, "call": call_no, "info": str(info)})
+                now = np.asarray(tm.np_dense(tm.qtn_tensors(q), [q.site_ind(i) for i in range(L)])).reshape(-1)
+                if not close(now, psi0, float(np.max(np.abs(psi0)))):
+                    ctx.violation(f"{key}:repeated:state_changed", f"{key} ({label}): after call #{call_no} the caller's MPS no longer denotes the same vector",
+                                  {**replay, "call": call_no})
+                if not inplace and any(not np.array_equal(np.asarray(a.data), np.asarray(b.data)) for a, b in zip(q.tensors, p.tensors)):
+                    ctx.violation(f"{key}:repeated:caller_state_mutated", f"{key} ({label}): inplace=False call #{call_no} modified the caller's tensors",
+                                  {**replay, "call": call_no})
+
+    # ---- gauges dicts (documented as used, not modified) and a reusable optimizer ---------------------------------
+    for n in range(ctx.n(2, 8)):
+        tn, _ = gen_graph(rng, n=rng.randint(3, 5), D=2, phys=2)
+        gauges = {}
+        tn_g = tn.copy()
+        tn_g.gauge_all_simple_(max_iterations=5, tol=1e-10, gauges=gauges)
+        if any(float(np.min(np.abs(g))) < 1e-6 * float(np.max(np.abs(g))) for g in gauges.values()):
+            continue
+        full = tn_g.copy()
+        full.gauge_simple_insert(gauges)
+        ref = Ref(full)
+        if abs(ref.n2) < 1e-9:
+            continue
+        sdesc = state_desc("graph+gauges", ref, {"id": f"repeat_gauges_{n}"})
+        g0 = {k: np.array(v, copy=True) for k, v in gauges.items()}
+        ns = len(ref.sites)
+        gl = [tuple(ref.sites)]
+        try:
+            import cotengra as ctg
+
+            opt = ctg.ReusableHyperOptimizer(max_repeats=2, methods=["greedy"], progbar=False, parallel=False)
+        except Exception:
+            opt = "greedy"
+        for key, fn in [
+            ("tnag.compute_local_expectation_cluster", lambda T, nz: tn_g.compute_local_expectation_cluster(
+                T, gauges=gauges, max_distance=ns + 1, normalized=nz, return_all=True, optimize=opt)),
+            ("tnag.compute_local_expectation_gloop_expand", lambda T, nz: tn_g.compute_local_expectation_gloop_expand(
+                T, gloops=gl, gauges=gauges, autoreduce=False, return_all=True, optimize=opt, info={})),
+        ]:
+            replay = {"state": sdesc, "route": key}
+            for call_no in (1, 2, 3):
+                T = {}
+                for _ in range(2):
+                    w = rand_where(rng, ref.sites, k=rng.choice([1, 2]), maxD=4, dims=ref.dims)
+                    T[w] = rand_op(rng, ref, w)[0]
+                nz = True if "gloop" in key else (call_no != 2)
+                ctx.count((sdesc["id"], key, call_no), True)
+                ctx.bump("route:repeated_queries")
+                try:
+                    res = fn(T, nz)
+                except Exception as e:
+                    ctx.violation(f"{key}:repeated:raised:{type(e).__name__}", f"{key} call #{call_no} (same gauges dict) raised {type(e).__name__}: {str(e)[:160]}", replay)
+                    break
+                cmp_terms(ctx, key, key + " (same gauges dict / optimizer)", res, T, ref, nz, replay, call_no)
+                if set(gauges) != set(g0) or any(not np.allclose(np.asarray(gauges[k]), g0[k], rtol=1e-12, atol=0) for k in g0):
+                    ctx.violation(f"{key}:repeated:gauges_modified", f"{key}: call #{call_no} modified the caller's gauges dict", replay)
+                    break
+
+    # ---- 2D: precomputed plaquette environments reused for several term sets ------------------------------------
+    from quimb.tensor.tn2d.core import calc_plaquette_sizes
+
+    for n, (Lx, Ly) in enumerate([(2, 2), (2, 3)] if ctx.quick else [(2, 2), (2, 3), (3, 2), (3, 3)]):
+        pp = gen_peps(rng, Lx, Ly)
+        ref = Ref(pp)
+        if abs(ref.n2) < 0.5:
+            continue
+        sdesc = state_desc(f"peps{Lx}x{Ly}", ref, {"id": f"repeat_peps_{n}"})
+        sites = list(ref.sites)
+
+        def peps_terms():
+            T = {}
+            a, b = sorted(rng.sample(sites, 2))
+            T[(a, b)] = rand_op(rng, ref, (a, b))[0]
+            c = rng.choice(sites)
+            T[c] = rand_op(rng, ref, (c,))[0]
+            return T
+
+        allT = [peps_terms() for _ in range(3)]
+        keys = [k for T in allT for k in T]
+        envs = {}
+        norm = pp.make_norm()
+        for xb, yb in calc_plaquette_sizes(keys):
+            envs.update(norm.compute_plaquette_environments(x_bsz=xb, y_bsz=yb, max_bond=4096, cutoff=0.0))
+        nenv = len(envs)
+        replay = {"state": sdesc, "route": "tn2d.compute_local_expectation[plaquette_envs]"}
+        for call_no, T in enumerate(allT, 1):
+            nz = call_no != 2
+            ctx.count((sdesc["id"], "plaquette_envs", call_no), True)
+            ctx.bump("route:repeated_queries")
+            try:
+                res = pp.compute_local_expectation(T, normalized=True, return_all=True, plaquette_envs=envs, contract_optimize="greedy")
+                if not nz:
+                    res = {k: (v[0], None) for k, v in res.items()}
+            except Exception as e:
+                ctx.violation(f"tn2d.compute_local_expectation:repeated:raised:{type(e).__name__}",
+                              f"compute_local_expectation with reused plaquette_envs, call #{call_no}, raised {type(e).__name__}: {str(e)[:160]}", replay)
+                break
+            Tref = {k: G for k, G in T.items()}
+
+            class _R:  # single-site keys (i, j) are sites themselves
+                pass
+
+            bad = False
+            for w, G in Tref.items():
+                wt = (w,) if isinstance(w[0], int) else w
+                want = ref.expec(G, wt) / (ref.n2 if nz else 1.0)
+                e, nrm = res[w]
+                v = complex(e / nrm) if nrm is not None else complex(e)
+                if not close(v, want, abs(want)):
+                    ctx.violation("tn2d.compute_local_expectation:repeated:value",
+                                  f"compute_local_expectation with reused plaquette_envs: call #{call_no} returned {v} for {w}, dense value {want}",
+                                  {**replay, "call": call_no, "where": str(w)})
+            if len(envs) != nenv:
+                ctx.violation("tn2d.compute_local_expectation:repeated:envs_modified", "the caller's plaquette_envs dict changed size", replay)
+
+    # ---- 3D: shared `envs` cache across calls -------------------------------------------------------------------
+    p3 = gen_peps3d(rng, (2, 2, 2))
+    ref = Ref(p3)
+    if abs(ref.n2) > 0.5:
+        sdesc = state_desc("peps3d2x2x2", ref, {"id": "repeat_peps3d"})
+        sites = list(ref.sites)
+        envs = {}
+        replay = {"state": sdesc, "route": "tn3d.compute_local_expectation[envs]"}
+        for call_no in (1, 2, 3):
+            a, b = rng.sample(sites, 2)
+            c = rng.choice(sites)
+            T = {(a, b): rand_op(rng, ref, (a, b))[0], c: rand_op(rng, ref, (c,))[0]}
+            nz = call_no != 2
+            ctx.count((sdesc["id"], "envs", call_no), True)
+            ctx.bump("route:repeated_queries")
+            try:
+                res = p3.compute_local_expectation(T, max_bond=4096, cutoff=0.0, normalized=nz, return_all=True, envs=envs)
+            except Exception as e:
+                ctx.violation(f"tn3d.compute_local_expectation:repeated:raised:{type(e).__name__}",
+                              f"PEPS3D.compute_local_expectation with a shared envs dict, call #{call_no}, raised {type(e).__name__}: {str(e)[:160]}", replay)
+                break
+            for w, G in T.items():
+                wt = (w,) if isinstance(w[0], int) else w
+                want = ref.expec(G, wt) / (ref.n2 if nz else 1.0)
+                v = complex(np.asarray(res[w]).reshape(-1)[0])
+                if not close(v, want, abs(want)):
+                    ctx.violation("tn3d.compute_local_expectation:repeated:value",
+                                  f"PEPS3D.compute_local_expectation with a shared envs dict: call #{call_no} returned {v} for {w}, dense value {want}",
+                                  {**replay, "call": call_no, "where": str(w)})
+
+
 def stage_info_reuse(ctx):
     """the `info` cache of the loop expansions may be reused "when both the tensor network and gauges remain the
     same": two different operators on the same sites with one shared info dict must both be right"""
@@ -1077,6 +1320,7 @@ def correspondence_and_oracle(ctx):
     ctx.stage(lambda c: stage_3d(c, cases))
     ctx.stage(stage_documented_forms)
     ctx.stage(stage_info_reuse)
+    ctx.stage(stage_repeated_queries)
     import time as _t
     _t0 = _t.time()
     run_coq(ctx, cases, "c13")
